@@ -738,7 +738,8 @@ example : ∃ fuel' o, obsOfRef (Ref.runProgram 8 demoFcSmall Ref.initSt).1 = so
 /-! ## F2 — user functions: `defn`, `fn`, closures, calls by name, recursion
 
 A program text of F2 is a list of top-level forms of `Ff true ""`, where `Ff fnOk self` is: literals,
-symbols, `def`, `set`, `begin`, `cond`, calls `(h a₁ … aₙ)`, and — in positions compiled when the
+symbols, `def`, `set`, `begin`, `cond`, `and`, `or`, non-empty `newScope`, `letseq`, `let` with pairwise
+distinct names, array literals, calls `(h a₁ … aₙ)`, and — in positions compiled when the
 text is loaded (`fnOk`: everywhere but inside the operands of a call) — `(fn [p₁ … pₙ] body…)` and
 `(defn name [p₁ … pₙ] body…)`, at top level or nested in function bodies to any depth: fixed arity,
 distinct parameters that are not lazy (`#p`) and not builtin names, a non-empty body in the fragment.
@@ -888,6 +889,29 @@ def demoF2Nested : List Expr :=
    .def_ "f" (.call (.sym "outer") [.int 1]), .def_ "g" (.call (.sym "outer") [.int 2]),
    .call (.sym "trace") [.call (.sym "f") [.int 10]], .call (.sym "g") [.int 20]]
 
+/-- `(defn mkacc [start] (let [total start] (fn [d] (set total (+ total d)) total))) (def acc (mkacc 10)) (acc 5)
+(trace (acc 7))`: a closure over a `let`-bound variable; `(defn f [xs] (and (not (== (len xs) 0)) (first xs)))
+(trace (f [4 5])) (f [])`: `and`, array literals; `(defn g [a] (letseq [b (+ a 1) c (* b 2)] (newScope (def a c) [a b c])))
+(g 1)`: `letseq`, `newScope` inside a function -/
+def demoF2Acc : List Expr :=
+  [.defn "mkacc" ["start"] none [.let_ false [("total", .sym "start")]
+      [.fn ["d"] none [.set_ "total" (.call (.sym "+") [.sym "total", .sym "d"]), .sym "total"]]],
+   .def_ "acc" (.call (.sym "mkacc") [.int 10]), .call (.sym "acc") [.int 5], .call (.sym "trace") [.call (.sym "acc") [.int 7]]]
+def demoF2And : List Expr :=
+  [.defn "f" ["xs"] none [.and_ [.call (.sym "not") [.call (.sym "==") [.call (.sym "len") [.sym "xs"], .int 0]],
+      .call (.sym "first") [.sym "xs"]]],
+   .call (.sym "trace") [.call (.sym "f") [.arr [.int 4, .int 5]]], .call (.sym "f") [.arr []]]
+def demoF2Seq : List Expr :=
+  [.defn "g" ["a"] none [.let_ true [("b", .call (.sym "+") [.sym "a", .int 1]), ("c", .call (.sym "*") [.sym "b", .int 2])]
+      [.newScope [.def_ "a" (.sym "c"), .arr [.sym "a", .sym "b", .sym "c"]]]],
+   .call (.sym "g") [.int 1]]
+
+macro "ft_mem2" d:ident : tactic =>
+  `(tactic| simp [$d:ident, FtList, FfList, Ff, FaList, FfArms, FfBinds, okParam, okName, okBinder, okSym, okHead, foBuiltins, hoNames])
+
+example : FtList demoF2Acc = true := by ft_mem2 demoF2Acc
+example : FtList demoF2And = true := by ft_mem2 demoF2And
+example : FtList demoF2Seq = true := by ft_mem2 demoF2Seq
 example : FtList demoF2Scope = true := by ft_mem demoF2Scope
 example : FtList demoF2Val = true := by ft_mem demoF2Val
 example : FtList demoF2Arity = true := by ft_mem demoF2Arity
@@ -968,8 +992,8 @@ or every top-level form in F2 -/
 def InProvedFragment (p : List Expr) : Prop := FvList p = true ∨ FcList p = true ∨ FtList p = true
 
 /-- **The part of `CompileCorrect` that is NOT proved**: programs that are in none of Fv, Fc, F2 —
-i.e. using user functions together with `let`/`and`/`or`/`for`/array literals (F2 has user
-functions but not yet those forms; Fc has those forms but only builtin calls), a `fn`/`defn` inside
+i.e. using user functions together with `for` loops (F2 has user functions but not yet loops; Fc
+has loops but only builtin calls), a `fn`/`defn` inside
 an operand of a call (compiled at run time), with a rest parameter, lazy parameters or a self call
 in a directly compiled position, `map`/`apply`/`force`/`substitute`, computed call heads,
 `break`/`continue` (and so loops that use them), an empty `newScope`, or (together with calls or
@@ -989,7 +1013,8 @@ def CompileCorrectOutsideProved : Prop := CompileCorrectOn (fun p => ¬ InProved
      in nested runs, array literals, and `for` loops without `break`/`continue` — `compile_correct_on_Fc`;
    * F2 — `defn`/`fn` of fixed arity at top level and nested, closures capturing (and assigning to)
      locals of the functions they were made in, calls of user functions by name (also through
-     variables: functions are values), recursion, first-order builtins, `def`/`set`/`begin`/`cond`;
+     variables: functions are values), recursion, first-order builtins, `def`/`set`/`begin`/`cond`/
+     `and`/`or`/`newScope`/`letseq`/`let`/array literals;
      values related modulo the numbering of closures — `compile_correct_on_F2`;
    * for the effect-free sub-fragment F0c with explicit fuel on both sides — `compile_correct_F0c`;
 2. the full `CompileCorrect` follows from its restriction to the remaining programs
@@ -997,7 +1022,7 @@ def CompileCorrectOutsideProved : Prop := CompileCorrectOn (fun p => ¬ InProved
 3. the layout half for `begin`/`cond`/`and`/`or` as before (and `gen_for_layout` for loops).
 
 MISSING (held by the `eval` correspondence only): `CompileCorrectOutsideProved` — `break`/`continue`
-(the rest of F1; generator-side groundwork in Proofs/SimFbGen.lean), the rest of F2 (the Fc forms
+(the rest of F1; generator-side groundwork in Proofs/SimFbGen.lean), the rest of F2 (`for` loops
 next to user functions, `fn`/`defn` inside operands, varargs), F3 (self tail calls, `map`/`apply`,
 lazy parameters). -/
 theorem compile_correct_partial :
